@@ -1043,6 +1043,11 @@ def m_fbits(I, st, c, args, cont, depth, site):
     cont(st, BV(x.t, 'u%d' % w))
 
 
+@model(r'^((std|core)::hint::)?must_use::<', 'hint::must_use (identity)')
+def m_must_use(I, st, c, args, cont, depth, site):
+    cont(st, args[0])
+
+
 @model(r'^(std|core)::mem::(drop|forget)::<|^(std|core)::ptr::drop_in_place::<|^(std|core)::hint::(black_box|assert_unchecked)|^(std|core)::intrinsics::(cold_path|assume|likely|unlikely)', 'drop/forget/hints (no-op)')
 def m_dropfn(I, st, c, args, cont, depth, site):
     if re.search(r'likely|black_box', c):
@@ -1370,7 +1375,13 @@ def cmp_values(I, st, a, b, depth, k):
         if len(cands) == 1:
             ra = a if isinstance(a, Ref) else I.halloc(st, a0)
             rb = b if isinstance(b, Ref) else I.halloc(st, b0)
-            return I.run(cands[0], [ra, rb], st, lambda s2, r: k(s2, r.variant), depth + 1)
+            def got(s2, r):
+                if isinstance(r, Enum) and r.ty == 'Ordering':
+                    return k(s2, r.variant)
+                if isinstance(r, Enum) and r.ty == 'Option' and r.variant == 'Some':
+                    return k(s2, r.f[0].variant)
+                raise Inconclusive('cmp impl %s returned %r' % (cands[0].name[-60:], r))
+            return I.run(cands[0], [ra, rb], st, got, depth + 1)
         if isinstance(a0, Enum) and isinstance(b0, Enum) and tk in ('Option',):
             if a0.variant != b0.variant:
                 return k(st, 'Less' if a0.variant == 'None' else 'Greater')
@@ -1567,3 +1578,30 @@ def generic_tail(c):
 def m_size_of(I, st, c, args, cont, depth, site):
     t = re.search(r'size_of::<(\w+)>', c).group(1)
     cont(st, usize(INT_W[t] // 8))
+
+
+@model(r'^(std::option::)?Option::<(u8|u16|u32|u64|usize|i32|i64|bool)>::unwrap_or_default$', 'Option<int>::unwrap_or_default')
+def m_unwrap_or_default(I, st, c, args, cont, depth, site):
+    v = _opt(I, st, args[0])
+    t = re.search(r'Option::<(\w+)>', c).group(1)
+    if v.variant == 'Some':
+        return cont(st, v.f[0])
+    cont(st, z3.BoolVal(False) if t == 'bool' else bv(0, t))
+
+
+@model(r'^(std::option::)?Option::<.*>::(filter|or|or_else|xor|zip)(::<.*>)?$', 'Option::filter|or')
+def m_opt_filter(I, st, c, args, cont, depth, site):
+    op = re.search(r'>::(\w+)(::<.*>)?$', c).group(1)
+    v = _opt(I, st, args[0])
+    if op == 'filter':
+        if v.variant == 'None':
+            return cont(st, v)
+        x = v.f[0]
+        return I.call_closure(st, args[1], [I.halloc(st, x)], lambda s2, r: cont(s2, PANIC) if r is PANIC else fork_bool(I, s2, r, lambda s3: cont(s3, v), lambda s3: cont(s3, none())), depth)
+    if op == 'or':
+        return cont(st, v if v.variant == 'Some' else args[1])
+    if op == 'or_else':
+        if v.variant == 'Some':
+            return cont(st, v)
+        return I.call_closure(st, args[1], [], cont, depth)
+    raise Inconclusive('Option::' + op)
